@@ -55,6 +55,13 @@ class Routing(SM.Monitor):
             my_spi = h['spi_r'] if h['flags']['initiator'] else h['spi_i']
             owners = [s for s in ep.sas if bytes(s.my_spi).hex() == my_spi]
             ev.pre['c16'] = {'h': h, 'init_req': init_req, 'owners': owners, 'snap': c08.snap(ep), 'my_spi': my_spi}
+        if ev.kind == 'status':
+            # the query is answered before the timer sweep of the same loop iteration: it describes the table as it is now
+            ev.pre['c16_table'] = [{'my_spi': bytes(s.my_spi).hex(), 'peer_spi': bytes(s.peer_spi).hex(),
+                                    'is_initiator': bool(s.is_initiator), 'state': s.state.name,
+                                    'my_addr': str(s.my_addr), 'peer_addr': str(s.peer_addr),
+                                    'children': [(bytes(c.inbound_spi).hex(), bytes(c.outbound_spi).hex()) for c in s.child_sas]}
+                                   for s in ep.sas]
         if ev.kind == 'expire':
             spi = ev.info['spi']
             owners = [s for s in ep.sas if any(bytes(c.inbound_spi) == spi or bytes(c.outbound_spi) == spi for c in s.child_sas)]
@@ -129,11 +136,7 @@ class Routing(SM.Monitor):
                     sim.fail('status-not-json', f'status reply is not JSON: {ex}')
                     got = None
                 if got is not None:
-                    want = [{'my_spi': bytes(s.my_spi).hex(), 'peer_spi': bytes(s.peer_spi).hex(),
-                             'is_initiator': bool(s.is_initiator), 'state': s.state.name,
-                             'my_addr': str(s.my_addr), 'peer_addr': str(s.peer_addr),
-                             'children': [(bytes(c.inbound_spi).hex(), bytes(c.outbound_spi).hex()) for c in s.child_sas]}
-                            for s in ep.sas]
+                    want = ev.pre['c16_table']
                     have = []
                     for g in got:
                         kids = []
@@ -264,3 +267,6 @@ def run(ctx):
     n = 120 if ctx.quick else 5000
     for st_ in pmap(worker, [(n, ctx.seed * 64 + i) for i in range(common.NCPU)]):
         ctx.stats.merge(st_)
+    if not ctx.quick:
+        import sys as _sys
+        common.hyp_fuzz_stage(ctx, _sys.modules[__name__], 'cases()')
